@@ -213,6 +213,8 @@ class Tr:
         self.defined = set()
         self.cur_co = False
         self.co_prefix = ''
+        self.local_vals = set()
+        self.racy_vals = set()
         self.parse(text)
         self.find_racy_fields()
 
@@ -607,7 +609,66 @@ class Tr:
 
     # ---------- functions ----------
     def lname(self, n):
+        if self.co_prefix and n in self.local_vals:
+            return 'l_' + self.cid(n)   # block-local temporary of a resumable function: not live across a scheduling point
         return self.co_prefix + 'v_' + self.cid(n)
+
+    def phiname(self, n):
+        return ('p_' if self.co_prefix else 'v_') + self.cid(n) + '_phi'
+
+    def compute_locals(self, nm, ps, blocks):
+        """values of a resumable function that need no frame slot: defined and used in one basic block with no scheduling point in between"""
+        self.local_vals = set()
+        if not self.cur_co:
+            return
+        params = set(a for _, a in ps)
+        racy = set()
+        name_re = re.compile(r'%(?:"[^"]*"|[-a-zA-Z$._0-9]+)')
+        info = {}   # name -> [def block, def idx, set(use blocks), last use idx in def block, is_phi]
+        ylines = {}
+        for bl, lines in blocks:
+            ys = []
+            for i, ln in enumerate(lines):
+                m = re.match(r'\s*(%(?:"[^"]*"|[-a-zA-Z$._0-9]+)) = (\w+)', ln)
+                d = m.group(1) if m else None
+                if d:
+                    info.setdefault(d, [bl, i, set(), i, m.group(2) == 'phi'])
+                    info[d][0], info[d][1], info[d][4] = bl, i, (m.group(2) == 'phi')
+                body = ln[m.end(1):] if m else ln
+                body = re.sub(r'label %(?:"[^"]*"|[-a-zA-Z$._0-9]+)', '', body)
+                is_phi = bool(m and m.group(2) == 'phi')
+                for u in name_re.findall(body):
+                    if u in self.types:
+                        continue
+                    e = info.setdefault(u, [None, -1, set(), -1, False])
+                    e[2].add('*phi*' if is_phi else bl)
+                    if not is_phi and e[0] == bl:
+                        e[3] = max(e[3], i)
+                if self.racy_yield and self.racy_fields:
+                    gm = re.search(r'= getelementptr inbounds (%(?:"[^"]*"|[-a-zA-Z$._0-9]+)), .*?, i64 0((?:, i32 \d+)+)\s*$', ln)
+                    if gm and d and (gm.group(1), tuple(int(x) for x in re.findall(r'i32 (\d+)', gm.group(2)))) in self.racy_fields:
+                        racy.add(d)
+                    bm = re.search(r'= bitcast \S+ (%(?:"[^"]*"|[-a-zA-Z$._0-9]+)) to', ln)
+                    if bm and d and bm.group(1) in racy:
+                        racy.add(d)
+                    lm = re.search(r'(?:load|store) .*\* (%(?:"[^"]*"|[-a-zA-Z$._0-9]+))(?:,|$)', ln)
+                    if (lm and lm.group(1) in racy) or ('getelementptr inbounds (' in ln and re.search(r'\b(load|store)\b', ln)):
+                        ys.append(i - 0.5)   # the scheduling point precedes the access
+                cm = re.search(r'(?:call|invoke)[^@%]*?(@[-a-zA-Z$._0-9]+|%(?:"[^"]*"|[-a-zA-Z$._0-9]+))\(', ln)
+                if cm:
+                    cal = cm.group(1)
+                    cal = self.aliases.get(cal, cal)
+                    if cal.startswith('%') or cal in self.yield_prims or cal in self.co:
+                        ys.append(i)
+            ylines[bl] = ys
+        for n, (db, di, ubs, last, is_phi) in info.items():
+            if db is None or is_phi or n in params:
+                continue
+            if ubs - {db}:
+                continue
+            if any(di <= y < last for y in ylines[db]):
+                continue
+            self.local_vals.add(n)
 
     def parse_func(self, header, body):
         header = re.sub(r' section "[^"]*"', '', header)
@@ -697,12 +758,13 @@ class Tr:
             self.fsig.setdefault(nm, self.nsig(ft[1], ft[2]))
         # global initialisers first: they make vtable entries address-taken
         ginits = []
+        gdefs = []
         for n, (t, init, const) in self.globals.items():
             ct = self.ctype(t)
-            if init is None:
-                ginits.append('extern %s %s;' % (ct, self.cid(n)))
-            else:
-                ginits.append('%s %s = %s;' % (ct, self.cid(n), self.cinit(init, t)))
+            ginits.append('extern %s %s;' % (ct, self.cid(n)))   # forward declaration: initialisers may refer to globals defined later
+            if init is not None:
+                gdefs.append('%s %s = %s;' % (ct, self.cid(n), self.cinit(init, t)))
+        ginits += gdefs
         fbodies = [self.emit_func(f) for f in self.funcs]
         fbodies = [re.sub(r'/\*ICALL(\d+)\*/', self.expand_icall, b) for b in fbodies]
         protos = []
@@ -862,7 +924,16 @@ class Tr:
         c = self.parse_const(p, t)
         if c[0] in ('agg', 'bytes'):
             return self.agg_operand(c, t)
-        return self.cexpr(c)
+        e = self.cexpr(c)
+        if c[0] == 'gep' and self.racy_fields and c[1][0] == 'named':
+            # constant-expression GEP into a global object: the same racy-field rule as for instruction GEPs
+            try:
+                path = tuple(int(re.fullmatch(r'(\d+)U(LL)?', self.cexpr(i)).group(1)) for i in c[3][1:])
+                if (c[1][1], path) in self.racy_fields:
+                    self.racy_vals.add(e)
+            except (AttributeError, NotImplementedError):
+                pass
+        return e
 
     def emit_func(self, f):
         nm, rt, ps, va, body = f
@@ -873,7 +944,7 @@ class Tr:
         self.cur_rt = rt
         self.vals = {}
         self.tmpn = 0
-        self.acc_on = any(self.cid(nm).startswith(pfx) for pfx in self.acc_prefixes) and not self.cid(nm).startswith(('vf_', '__vf_'))
+        self.acc_on = any(self.cid(nm).startswith(pfx) for pfx in self.acc_prefixes) and not (self.cid(nm).startswith('__vf_racy_field') or self.cid(nm) in ('vf_lock_mode', 'vf_on_park', 'vf_final'))
         for t, a in ps:
             self.vals[a] = t
         blocks = []
@@ -908,6 +979,7 @@ class Tr:
         self.co_mem = []
         self.co_extra = []
         self.racy_vals = set()
+        self.compute_locals(nm, ps, blocks)
         insts = {}
         for b in blocks:
             insts[b[0]] = [self.parse_inst(l) for l in b[1]]
@@ -969,15 +1041,16 @@ class Tr:
                 continue
             out.append(ln)
         code = out
+        ldecl = []
         for n, t in self.vals.items():
             if any(n == a for _, a in ps):
                 continue
             if t[0] == 'void':
                 continue
-            decl.append('  %s %s;' % (self.ctype(t), self.lname(n)))
+            (ldecl if (self.cur_co and n in self.local_vals) else decl).append('  %s %s;' % (self.ctype(t), self.lname(n)))
         for bl in phis:
             for ph in phis[bl]:
-                decl.append('  %s %s_phi;' % (self.ctype(ph[2]), self.lname(ph[1])))
+                (ldecl if self.cur_co else decl).append('  %s %s;' % (self.ctype(ph[2]), self.phiname(ph[1])))
         if self.cur_co:
             fn = self.cid(nm)
             fields = ['  int pc;']
@@ -990,7 +1063,7 @@ class Tr:
             fields += ['  ' + m for m in self.co_extra]
             self.frames.append('struct FR_%s {\n%s\n};\nstruct FR_%s fr_%s[%s];' % (fn, '\n'.join(fields), fn, fn, self.nthr_macro))
             sw = '  switch (F->pc) { case 0: break; ' + ' '.join('case %d: goto R%d;' % (k, k) for k in range(1, self.resume + 1)) + ' default: __vf_bad_icall(); }'
-            return 'int %s_co(void) {\n  struct FR_%s *F = &fr_%s[__vf_cur];\n%s\n%s\n}\n' % (fn, fn, fn, sw, '\n'.join('  ' + c for c in code))
+            return 'int %s_co(void) {\n  struct FR_%s *F = &fr_%s[__vf_cur];\n%s\n%s\n%s\n}\n' % (fn, fn, fn, '\n'.join(ldecl), sw, '\n'.join('  ' + c for c in code))
         sig = '%s %s(%s)' % (self.ctype(rt), self.cid(nm), ', '.join('%s %s' % (self.ctype(t), self.lname(a)) for t, a in ps) or 'void')
         return sig + ' {\n' + '\n'.join(decl) + '\n' + '\n'.join('  ' + c for c in code) + '\n}\n'
 
@@ -1249,10 +1322,10 @@ class Tr:
         for ph in ps:
             for v, b in ph[3]:
                 if b == frm:
-                    out.append('%s_phi = %s;' % (self.lname(ph[1]), v))
+                    out.append('%s = %s;' % (self.phiname(ph[1]), v))
         for ph in ps:
             if any(b == frm for _, b in ph[3]):
-                out.append('%s = %s_phi;' % (self.lname(ph[1]), self.lname(ph[1])))
+                out.append('%s = %s;' % (self.lname(ph[1]), self.phiname(ph[1])))
         return out
 
     def goto(self, frm, to, phis):
